@@ -66,7 +66,7 @@ def run(ctx):
     broken = []
     witness = None
     known_size1 = []
-    ok, failures = ctx.proof_gate(["Poulpy.Props.C15"])
+    ok, failures = ctx.proof_gate(["Poulpy.Props.C15", "Poulpy.Props.C15Noise"])
     broken += failures
     binp = ctx.build_harness()
     drv = ctx.driver()
@@ -393,6 +393,69 @@ def run(ctx):
         ctx.cov["cases_by_kind"] = hist
         for i in (0, len(reqs) // 2):
             ctx.samples.append({"request": lines[i], "implementation": outl[i], "model": model.get(i)})
+
+    # ---- noise chain: measured key error of the circuit-bootstrapped GGSWs, measured error of the packed result, proved worst-case bound
+    import math
+    DEPTH = {"add": 64, "sub": 64, "slt": 64, "sltu": 64, "sll": 6, "srl": 6, "sra": 6, "and": 2, "or": 2, "xor": 2}
+    r = ctx.rng.fork()
+    nreq = []
+    for oi, op in enumerate(DEPTH):
+        for rep in range(1 if quick else 4):
+            a, b = (r.choice(c13.BOUNDARY), r.choice(c13.BOUNDARY)) if rep == 0 else (r.next() & M32, r.next() & M32)
+            nreq.append((BES[(oi + rep) % 2], op, a, b))
+    nlines = [f"{i} wordnoise be={be} op={op} a={a} b={b}" for i, (be, op, a, b) in enumerate(nreq)]
+    rcn, nout, errn = ctx.run_lines(binp, ["fheuint"], nlines, timeout=3000)
+    chain = {}
+    if rcn != 0 or len(nout) != len(nlines):
+        broken.append(f"pvh fheuint wordnoise failed rc={rcn} {errn[-300:]}")
+    else:
+        blines = []
+        for i, (be, op, a, b) in enumerate(nreq):
+            d = kv(nout[i].split())
+            blines.append(f"{i} noise word n=256 rank=2 dnum=2 b=13 k=26 hw=256 l={DEPTH[op]} e={d.get('ein', 0)} bp=0")
+        rcb, bout, _ = ctx.run_lines(drv, [], blines)
+        for i, (be, op, a, b) in enumerate(nreq):
+            d = kv(nout[i].split())
+            bd = kv(bout[i].split()) if i < len(bout) else {}
+            ctx.evaluations += 1
+            ctx.count_case(("wordnoise", be, op))
+            want = c13.spec(op, a, b)
+            if not nout[i].split()[1:2] == ["ok"] or d.get("word") != str(want) or "bound" not in bd:
+                ctx.oracle_failures += 1
+                witness = witness or {"kind": "wordnoise", "line": nlines[i], "implementation": nout[i][:200], "want": want}
+                continue
+            ein, out, bound = int(d["ein"]), int(d["out"]), int(bd["bound"])
+            if out > bound:
+                ctx.oracle_failures += 1
+                witness = witness or {"kind": "wordnoise", "line": nlines[i], "measured_out": out, "proved_bound": bound}
+            e = chain.setdefault(op, {"depth": DEPTH[op], "ein_log2": -99.0, "out_log2": -99.0, "bound_log2": 99.0, "worst_case_condition_holds": True})
+            e["ein_log2"] = max(e["ein_log2"], round(math.log2(max(ein, 1)) - 64, 2))
+            e["out_log2"] = max(e["out_log2"], round(math.log2(max(out, 1)) - 64, 2))
+            e["bound_log2"] = min(e["bound_log2"], round(math.log2(max(bound, 1)) - 64, 2))
+            e["worst_case_condition_holds"] = e["worst_case_condition_holds"] and bd.get("wordok") == "1"
+            e["fresh_log2"] = round(math.log2(max(int(d.get("fresh", 1)), 1)) - 64, 2)
+    ctx.cov["noise_chain"] = {"units": "log2 of the max coefficient error, torus = 1; Delta/2 = 2^-3", "per_operation": chain,
+                              "bound": "L_op * NoiseB.cmuxBound(N=256, rank 2, 2 rows of 2^13, 26 bits, hw 256, E = measured ein) (pdriver noise word); "
+                                       "worst_case_condition = 2*(L*Bc) < Delta (C15Noise.word_op_correct)"}
+
+    # ---- across rounds of re-preparation: the key error of prepare(x) and the error of the result stay where they were (C15Noise.add_reprepare_fixpoint)
+    nr = 4 if quick else 10
+    ra, rb_ = 4294967290, 3
+    rcr, rout, _ = ctx.run_lines(binp, ["fheuint"], [f"0 noiserounds be=fft64ref op=add a={ra} b={rb_} rounds={nr}"], timeout=3000)
+    if rcr != 0 or not rout or rout[0].split()[1:2] != ["ok"]:
+        broken.append(f"pvh fheuint noiserounds failed: {(rout or ['?'])[0][:200]}")
+    else:
+        d = kv(rout[0].split())
+        words = [int(x) for x in d["words"].split(",")]
+        eins = [int(x) for x in d["eins"].split(",")]
+        outs = [int(x) for x in d["outs"].split(",")]
+        ctx.evaluations += nr
+        ctx.count_case(("noiserounds", nr))
+        if words != [(ra + (k + 1) * rb_) & M32 for k in range(nr)] or max(eins) > 4 * eins[0] or max(outs) > 4 * outs[0]:
+            ctx.oracle_failures += 1
+            witness = witness or {"kind": "noiserounds", "implementation": rout[0][:300], "why": "wrong word or noise growing across rounds"}
+        ctx.cov["noise_rounds"] = {"rounds": nr, "key_error_of_prepare_x_log2": [round(math.log2(max(e, 1)) - 64, 2) for e in eins],
+                                   "result_error_log2": [round(math.log2(max(e, 1)) - 64, 2) for e in outs]}
 
     # model-only: layout tables
     rc3, lo, _ = ctx.run_lines(drv, [], ["0 fheuint bitindex ty=u8", "1 fheuint bitindex ty=u16", "2 fheuint bitindex ty=u32"])
